@@ -286,7 +286,7 @@ func genVector(r *rng, k int, big bool) (vec string, class string, sh vecShape) 
 	case 4:
 		i := idx()
 		d := strings.SplitN(toks[i], ":", 2)
-		toks[i] = pick(r, []string{"ZZ", "X", "av", "Av", "MAVV", "", "E", "CDP", "MS", "Au"}) + ":" + d[len(d)-1]
+		toks[i] = pick(r, []string{"ZZ", "X", "av", "Av", "MAVV", "", "E", "CDP", "MS", "Au", "ıı", "ſſ", "Mſſ", "ıVı", "ßß", "ǅǅ", "İİ", "\u2c65\u2c65", "ﬁﬁ"}) + ":" + d[len(d)-1]
 		class = "rename-metric"
 	case 5:
 		i := idx()
